@@ -103,6 +103,26 @@ def reducedParams (mask : Option (List Bool)) (values free : List α) : List α 
   | none => free
   | some m => fillMask m values free
 
+/-! ### call histories on one reduced model
+
+The value buffer is an attribute of the reduced model: EVERY call (`sample`, `compute_log_likelihood`,
+`compute_sensitivities`, `compute_individual_parameters`) first writes its free parameters into the
+buffer and then hands the buffer's content to the wrapped model. -/
+
+/-- the buffer after a history of calls (the free parameters of each call, oldest first) -/
+def reducedBuffer (mask : List Bool) (values : List α) : List (List α) → List α
+  | [] => values
+  | f :: hist => reducedBuffer mask (fillMask mask values f) hist
+
+/-- the vector the wrapped model receives in a call with `free` after the history `hist` -/
+def reducedCall (mask : List Bool) (values : List α) (hist : List (List α)) (free : List α) : List α :=
+  fillMask mask (reducedBuffer mask values hist) free
+
+/-- a variant that copies the buffer BEFORE the free parameters of the call are written (the call then
+    works with the free parameters of the previous call) -/
+def reducedCallStale (mask : List Bool) (values : List α) (hist : List (List α)) (_free : List α) : List α :=
+  reducedBuffer mask values hist
+
 /-! ## population models -/
 
 /-- one call on the generator -/
